@@ -211,7 +211,9 @@ impl = safe_impl(_impl)
 
 
 def canon(reply):
-    if reply.startswith("ok ") and "|" in reply:
+    # every FmtStr reply goes to per-character cells: "ok -" (FmtStr() without runs) and "ok |" (fmtstr("")) are the same
+    # empty string; numbers ("ok 3"), texts of the helper op and exception kinds stay as they are
+    if reply.startswith("ok ") and (reply[3:] == "-" or "|" in reply):
         return canon_cells(reply)
     return reply
 
@@ -401,8 +403,18 @@ def pyte_width_crosscheck(ctx):
     except Exception as e:  # noqa: BLE001
         ctx.note("pyte cursor-advance cross-check skipped: %s" % e)
         return
-    alphabet = [ch for ch in list(ALPHA3) + ["b", "\u8a9e", "\u00e9", "\u0300"] if pw.wcwidth(ch) == wc(ch)]
+    # the alphabet is filtered by the REFERENCE width (cwcwidth imported by the harness) agreeing with pyte's table - never by
+    # what the implementation says: a character the implementation mis-measures stays in and is reported
+    alphabet = [ch for ch in list(ALPHA3) + ["b", "\u8a9e", "\u00e9", "\u0300", "\U0001F44D"] if pw.wcwidth(ch) == wc(ch)]
     ctx.note("pyte cursor-advance cross-check of .width over %d characters with agreeing width tables" % len(alphabet))
+    for ch in alphabet:
+        try:
+            got = F.wcwidth(ch)
+        except Exception as e:  # noqa: BLE001
+            got = type(e).__name__
+        if got != wc(ch):
+            ctx.violation("the library measures U+%04X as %r columns, cwcwidth and the terminal emulator's table say %d"
+                          % (ord(ch), got, wc(ch)), dict(op="width", f=[(ch, {})]), None)
     n = 0
     for k in range(5):
         for tup in itertools.product(alphabet, repeat=k):
